@@ -2097,11 +2097,25 @@ func init() {
 					if _, hi, _, hasHi := intBounds(ia, ia.Index); hasHi && hi < N {
 						okBound = true
 					}
+					// idx = y - c (c >= 0) with y bounded above by a guard
+					if sub, ok := stripConv(ia.Index).(*ssa.BinOp); ok && sub.Op == token.SUB {
+						if cst, isC := constInt(sub.Y); isC && cst >= 0 {
+							if _, hi, _, hasHi := intBounds(ia, sub.X); hasHi && hi-cst < N {
+								okBound = true
+							}
+						}
+					}
 					for _, g0 := range guardsAt(ia) {
 						for _, g := range expandGuardDeep(g0) {
 							bo, ok := g.Cond.(*ssa.BinOp)
 							if !ok || !sameQuantity(bo.X, ia.Index) {
 								continue
+							}
+							// idx < x where x itself cannot exceed N (a count chosen among constants, a masked value, …)
+							if (bo.Op == token.LSS && g.Truth) || (bo.Op == token.GEQ && !g.Truth) {
+								if ub, ok := valueUpperBound(stripConv(bo.Y), 0); ok && ub <= N {
+									okBound = true
+								}
 							}
 							// idx < len(arr), idx != N (cursor moving by one)
 							if call, isCall := stripConv(bo.Y).(*ssa.Call); isCall {
@@ -3313,6 +3327,13 @@ func valueUpperBound(v ssa.Value, d int) (int64, bool) {
 				if b, ok := x.X.Type().Underlying().(*types.Basic); ok && b.Info()&types.IsUnsigned != 0 {
 					return k - 1, true
 				}
+			}
+		case token.ADD:
+			// a count advanced by constants on straight-line code (a loop-carried counter runs out of depth and stays unbounded)
+			a, okA := valueUpperBound(x.X, d+1)
+			b, okB := valueUpperBound(x.Y, d+1)
+			if okA && okB {
+				return a + b, true
 			}
 		case token.SHR:
 			if hi, ok := valueUpperBound(x.X, d+1); ok {
